@@ -16,12 +16,31 @@ import BSModel.Base.PStr
     exactly this list is C01/C02's chain invariant plus the walk of C05/C11, and is checked on every case by the harness. -/
 namespace BS.Copy
 
-/-- an attribute value: a `str` (immutable; subclasses such as `ContentMetaAttributeValue` included) or a list object
-    (`AttributeValueList` or a subclass `cls`) with identity `lid` -/
-inductive AVal where
-  | str (s : PStr)
-  | list (lid : Nat) (cls : Nat) (items : List PStr)
+/-- what an attribute *key* is besides its text: `none` for a plain `str`, `some ⟨prefix, name, namespace⟩` for a
+    `NamespacedAttribute` (a `str` subclass whose text is `prefix:name`; it hashes and compares by that text) -/
+structure NsKey where
+  pfx : Option PStr
+  name : Option PStr
+  ns : Option PStr
 deriving DecidableEq, Repr
+
+abbrev KMeta := Option NsKey
+
+/-- an attribute value: a `str` of class `cls` (0 `str`, 1 `CharsetMetaAttributeValue`, 2 `ContentMetaAttributeValue`,
+    ≥ 3 any other `str` subclass; immutable, its text is what `str.__eq__` and `dict` see), a list object
+    (`AttributeValueList` or a subclass `cls`) with identity `lid`, or one of the non-string values user code can store in a
+    plain `AttributeDict` (`tag["id"] = 2`, test_tree.py test_attribute_modification): an `int`, a `bool`, `None` -/
+inductive AVal where
+  | str (cls : Nat) (s : PStr)
+  | list (lid : Nat) (cls : Nat) (items : List PStr)
+  | int (n : Int)
+  | bool (b : Bool)
+  | none
+deriving DecidableEq, Repr
+
+/-- a dict entry: the key's text, what else the key object is, the value -/
+abbrev AEntry := KMeta × AVal
+abbrev Attrs := List (PStr × AEntry)
 
 /-- the per-tag settings `copy_self` forwards. `cdata`, `preserveWs`, `interesting`, `namespaces`: identity of the object
     the attribute points to (`none` = `None`, resp. an empty `_namespaces`, which `namespaces or {}` re-creates). -/
@@ -38,13 +57,14 @@ structure Settings where
 deriving DecidableEq, Repr
 
 /-- what a `Tag` object holds besides its children. `parserClass`, `dictCls` (class of the `attrs` dict: 0 `AttributeDict`,
-    1 `HTMLAttributeDict`, 2 `XMLAttributeDict`, ≥ 3 custom) and `avlCls` (`attribute_value_list_class`: 0 = the stock
-    `AttributeValueList`) are the three fields a copy does **not** keep; nothing in `==`, `hash`, `decode` reads them. -/
+    1 `HTMLAttributeDict`, 2 `XMLAttributeDict`, ≥ 3 custom without processing) is kept by a copy since the repair of
+    `copy_self`; `parserClass` and `avlCls` (`attribute_value_list_class`: 0 = the stock `AttributeValueList`) are the two
+    fields a copy does **not** keep; nothing in `==`, `hash`, `decode` reads them. -/
 structure TagData where
   name : PStr
   pfx : Option PStr
   ns : Option PStr
-  attrs : List (PStr × AVal)   -- the dict in insertion order
+  attrs : Attrs                -- the dict in insertion order
   st : Settings
   parserClass : Option Nat
   dictCls : Nat
@@ -68,27 +88,83 @@ def isXml (inh : Option Bool) (d : TagData) : Option Bool :=
   | some b => some b
   | none => inh
 
+/-! ### the processing attribute dictionaries -/
+
+/-- `str(n)` of an `int` -/
+def decimal (n : Int) : PStr := (toString n).toList.map Char.toNat
+
+/-- element.py `HTMLAttributeDict.__setitem__`: `value = key.name if isinstance(key, NamespacedAttribute) else key`
+    (`key.name` may be `None`) -/
+def boolName (k : PStr) : KMeta → AVal
+  | Option.none => .str 0 k
+  | some ⟨_, some nm, _⟩ => .str 0 nm
+  | some ⟨_, Option.none, _⟩ => .none
+
+/-- `HTMLAttributeDict.__setitem__` (element.py:267-300): `False`/`None` remove the attribute, `True` becomes the
+    attribute's name, numbers become their `str`; everything else is stored as it is. `Option.none` = nothing is stored. -/
+def coerceHtml (k : PStr) (m : KMeta) : AVal → Option AVal
+  | .bool false => none
+  | .none => none
+  | .bool true => some (boolName k m)
+  | .int n => some (.str 0 (decimal n))
+  | v => some v
+
+/-- `XMLAttributeDict.__setitem__` (element.py:233-262): `None` becomes `""`, a `bool` is kept, other numbers become
+    their `str` -/
+def coerceXml : AVal → Option AVal
+  | .none => some (.str 0 [])
+  | .int n => some (.str 0 (decimal n))
+  | v => some v
+
+/-- `d[key] = value` for a dict of class `dictCls`: what ends up stored. A plain `AttributeDict` (0) and the custom
+    classes of the harness (≥ 3) store the value as it is. -/
+def coerce (dictCls : Nat) (k : PStr) (m : KMeta) (v : AVal) : Option AVal :=
+  if dictCls = 1 then coerceHtml k m v else if dictCls = 2 then coerceXml v else some v
+
+/-- every value in the dict is one its own class would store unchanged — true of every dict filled through its own
+    `__setitem__` (`tag[k] = v`), of every plain `AttributeDict` whatever it holds, of every dict of strings and lists -/
+def Settled (dictCls : Nat) (l : Attrs) : Prop := ∀ e ∈ l, coerce dictCls e.1 e.2.1 e.2.2 = some e.2.2
+
 /-! ### `copy_self` -/
 
-/-- element.py:1685-1692 `for k, v in attrs.items(): if isinstance(v, list): v = v.__class__(v); self.attrs[k] = v`:
-    list values are re-created (same class, same items, new object), strings are stored as they are, key order is kept.
-    (`HTML/XMLAttributeDict.__setitem__` leave `str` and `list` values alone.) -/
-def copyAttrs (next : Nat) : List (PStr × AVal) → List (PStr × AVal) × Nat
-  | [] => ([], next)
-  | (k, .str s) :: r => let q := copyAttrs next r; ((k, .str s) :: q.1, q.2)
-  | (k, .list _ c items) :: r => let q := copyAttrs (next + 1) r; ((k, .list next c items) :: q.1, q.2)
+/-- `new[key] = value` seen from the end of the loop: the stored value (if any) goes in front of what the later
+    iterations add -/
+def pushEntry (k : PStr) (m : KMeta) (ov : Option AVal) (q : Attrs × Nat) : Attrs × Nat :=
+  match ov with
+  | some v' => ((k, m, v') :: q.1, q.2)
+  | Option.none => q
 
-/-- `Tag.copy_self` (element.py:1786-1812): `type(self)(None, None, name, namespace, prefix, attrs, is_xml=self._is_xml,
-    sourceline, sourcepos, can_be_empty_element, cdata_list_attributes, preserve_whitespace_tags,
-    interesting_string_types, namespaces)` then `setattr` of `can_be_empty_element` and `hidden`. With `builder=None`,
-    `Tag.__init__` takes the attribute dict class from `is_xml` (:1666-1669), `known_xml = is_xml` (:1698), and the
-    settings as passed (:1707-1710); `parser=None` gives `parser_class = None` (:1643).
-    `xml` = the original's `_is_xml`. Result: id of the clone, its data, the next free id. -/
+/-- the attribute loop, of `Tag.__init__` (element.py:1685-1692, into a new `HTML/XMLAttributeDict`) before the repair
+    and of `Tag.copy_self` (into a new dict of the original's class) after it:
+    `for key, value in attrs.items(): if isinstance(value, list): value = value.__class__(value); new[key] = value`.
+    List values are re-created (same class, same items, new object); every value goes through the `__setitem__` of the
+    new dict's class `dictCls`; keys (the very same immutable key objects) and their order are kept. The keys of a dict are
+    distinct, so every `new[key] = value` appends (or, for a removed `False`/`None`, does nothing). -/
+def copyAttrs (dictCls : Nat) (next : Nat) : Attrs → Attrs × Nat
+  | [] => ([], next)
+  | (k, m, .list _ c items) :: r => let q := copyAttrs dictCls (next + 1) r; ((k, m, .list next c items) :: q.1, q.2)
+  | (k, m, v) :: r => pushEntry k m (coerce dictCls k m v) (copyAttrs dictCls next r)
+
+/-- `Tag.copy_self` (element.py:1800-1836) **as repaired**: `type(self)(None, None, name, namespace, prefix, attrs,
+    is_xml=self._is_xml, sourceline, sourcepos, can_be_empty_element, cdata_list_attributes, preserve_whitespace_tags,
+    interesting_string_types, namespaces)`, then `clone.attrs = self.attrs.__class__()` filled by the attribute loop, then
+    `setattr` of `can_be_empty_element` and `hidden`. With `builder=None`, `Tag.__init__` sets `known_xml = is_xml`
+    (:1698), the settings as passed (:1707-1710), `parser_class = None` (:1643) and the stock
+    `attribute_value_list_class`. `xml` = the original's `_is_xml`. Result: id of the clone, its data, the next free id. -/
 def copySelf (next : Nat) (d : TagData) (xml : Option Bool) : Nat × TagData × Nat :=
-  let q := copyAttrs (next + 1) d.attrs
+  let q := copyAttrs d.dictCls (next + 1) d.attrs
   (next,
-   { d with attrs := q.1, st := { d.st with knownXml := xml }, parserClass := none,
-            dictCls := if xml == some true then 2 else 1, avlCls := 0 },
+   { d with attrs := q.1, st := { d.st with knownXml := xml }, parserClass := Option.none, avlCls := 0 },
+   q.2)
+
+/-- `Tag.copy_self` **before the repair** (bs4 4.13.0): the clone kept the dict `Tag.__init__` made — an
+    `XMLAttributeDict` when `is_xml` is true, else an `HTMLAttributeDict` (:1666-1669) — so the original's values were
+    processed a second time, by another class than the one that holds them. Kept for `old_copy_self_coerces`. -/
+def copySelfOld (next : Nat) (d : TagData) (xml : Option Bool) : Nat × TagData × Nat :=
+  let cls := if xml == some true then 2 else 1
+  let q := copyAttrs cls (next + 1) d.attrs
+  (next,
+   { d with attrs := q.1, st := { d.st with knownXml := xml }, parserClass := Option.none, dictCls := cls, avlCls := 0 },
    q.2)
 
 /-! ### the event stream and the copying loop -/
@@ -208,21 +284,28 @@ end
 /-! ### what a copy keeps: the tree with identities erased -/
 
 inductive SVal where
-  | str (s : PStr)
+  | str (cls : Nat) (s : PStr)
   | list (cls : Nat) (items : List PStr)
+  | int (n : Int)
+  | bool (b : Bool)
+  | none
 deriving DecidableEq, Repr
 
 def AVal.erase : AVal → SVal
-  | .str s => .str s
+  | .str c s => .str c s
   | .list _ c items => .list c items
+  | .int n => .int n
+  | .bool b => .bool b
+  | .none => .none
 
-/-- a tag without identities: name, prefix, namespace, attributes in order (list values with their class), every setting,
-    and `_is_xml` in place of `known_xml` -/
+/-- a tag without identities: name, prefix, namespace, attributes in order (keys with what kind of key object they are,
+    values with their class), the class of the attribute dict, every setting, and `_is_xml` in place of `known_xml` -/
 structure SData where
   name : PStr
   pfx : Option PStr
   ns : Option PStr
-  attrs : List (PStr × SVal)
+  attrs : List (PStr × KMeta × SVal)
+  dictCls : Nat
   canBeEmpty : Option Bool
   cdata : Option Nat
   preserveWs : Option Nat
@@ -239,10 +322,10 @@ inductive Shape where
   | tag (d : SData) (kids : List Shape)
 deriving Repr
 
-def eraseAttrs (l : List (PStr × AVal)) : List (PStr × SVal) := l.map fun kv => (kv.1, kv.2.erase)
+def eraseAttrs (l : Attrs) : List (PStr × KMeta × SVal) := l.map fun kv => (kv.1, kv.2.1, kv.2.2.erase)
 
 def shapeData (d : TagData) (xml : Option Bool) : SData :=
-  { name := d.name, pfx := d.pfx, ns := d.ns, attrs := eraseAttrs d.attrs, canBeEmpty := d.st.canBeEmpty,
+  { name := d.name, pfx := d.pfx, ns := d.ns, attrs := eraseAttrs d.attrs, dictCls := d.dictCls, canBeEmpty := d.st.canBeEmpty,
     cdata := d.st.cdata, preserveWs := d.st.preserveWs, interesting := d.st.interesting, hidden := d.st.hidden,
     sourceline := d.st.sourceline, sourcepos := d.st.sourcepos, namespaces := d.st.namespaces, xml := xml }
 
@@ -257,10 +340,10 @@ end
 
 /-! ### identities -/
 
-def attrIds : List (PStr × AVal) → List Nat
+def attrIds : Attrs → List Nat
   | [] => []
-  | (_, .str _) :: r => attrIds r
-  | (_, .list lid _ _) :: r => lid :: attrIds r
+  | (_, _, .list lid _ _) :: r => lid :: attrIds r
+  | (_, _, _) :: r => attrIds r
 
 mutual
 /-- every object identity of a tree: node ids and attribute value list ids, in pre-order -/
@@ -276,7 +359,7 @@ end
 
 /-- a mutation of one object. Applied to a tree value it changes every occurrence of that object. -/
 inductive Edit where
-  | setAttr (tag : Nat) (k : PStr) (v : AVal)     -- `tag[k] = v`
+  | setAttr (tag : Nat) (k : PStr) (m : KMeta) (v : AVal)   -- `tag[k] = v` (through the `__setitem__` of the tag's dict)
   | delAttr (tag : Nat) (k : PStr)                 -- `del tag[k]`
   | listAppend (lid : Nat) (item : PStr)           -- `tag[k].append(item)` on the list object `lid`
   | listSet (lid : Nat) (items : List PStr)        -- any other in-place change of the list object
@@ -287,28 +370,34 @@ inductive Edit where
   | replace (node : Nat) (by_ : Node)              -- `node.replace_with(by_)`
 
 def Edit.target : Edit → Nat
-  | .setAttr t _ _ => t | .delAttr t _ => t | .listAppend l _ => l | .listSet l _ => l | .setName t _ => t
+  | .setAttr t _ _ _ => t | .delAttr t _ => t | .listAppend l _ => l | .listSet l _ => l | .setName t _ => t
   | .insertKid t _ _ => t | .clear t => t | .remove n => n | .replace n _ => n
 
-def setAssoc (k : PStr) (v : AVal) : List (PStr × AVal) → List (PStr × AVal)
-  | [] => [(k, v)]
-  | (k', w) :: r => if k' == k then (k', v) :: r else (k', w) :: setAssoc k v r
+/-- `dict.__setitem__`: an existing key keeps its position and its key object, a new one is appended -/
+def setAssoc (k : PStr) (m : KMeta) (v : AVal) : Attrs → Attrs
+  | [] => [(k, m, v)]
+  | (k', m', w) :: r => if k' == k then (k', m', v) :: r else (k', m', w) :: setAssoc k m v r
 
 def editVal (e : Edit) : AVal → AVal
-  | .str s => .str s
   | .list lid c items =>
     match e with
     | .listAppend l item => if l = lid then .list lid c (items ++ [item]) else .list lid c items
     | .listSet l new => if l = lid then .list lid c new else .list lid c items
     | _ => .list lid c items
+  | v => v
 
-def editAttrs (e : Edit) (l : List (PStr × AVal)) : List (PStr × AVal) := l.map fun kv => (kv.1, editVal e kv.2)
+def editAttrs (e : Edit) (l : Attrs) : Attrs := l.map fun kv => (kv.1, kv.2.1, editVal e kv.2.2)
 
 /-- the part of an edit that concerns the tag object `i` itself -/
 def editData (e : Edit) (i : Nat) (d : TagData) : TagData :=
   let d := { d with attrs := editAttrs e d.attrs }
   match e with
-  | .setAttr t k v => if t = i then { d with attrs := setAssoc k v d.attrs } else d
+  | .setAttr t k m v =>
+    if t = i then
+      match coerce d.dictCls k m v with
+      | some v' => { d with attrs := setAssoc k m v' d.attrs }
+      | Option.none => { d with attrs := d.attrs.filter fun kv => !(kv.1 == k) }   -- `if key in self: del self[key]`
+    else d
   | .delAttr t k => if t = i then { d with attrs := d.attrs.filter fun kv => !(kv.1 == k) } else d
   | .setName t nm => if t = i then { d with name := nm } else d
   | _ => d
@@ -333,19 +422,28 @@ end
 
 /-! ### `==` -/
 
+/-- the number a value is for `int.__eq__` (`bool` is a subclass of `int`: `True == 1`) -/
+def numOf : AVal → Option Int
+  | .int n => some n
+  | .bool b => some (if b then 1 else 0)
+  | _ => Option.none
+
 /-- `==` of two attribute values: `str.__eq__` (by text, whatever the subclass), `list.__eq__` (by items, whatever the
-    subclass); a string never equals a list -/
+    subclass), `int.__eq__` for `int`/`bool`, `None == None`; values of different kinds are never equal -/
 def valEq : AVal → AVal → Bool
-  | .str a, .str b => a == b
+  | .str _ a, .str _ b => a == b
   | .list _ _ a, .list _ _ b => a == b
-  | _, _ => false
+  | .none, .none => true
+  | v, w => match numOf v, numOf w with
+    | some a, some b => a == b
+    | _, _ => false
 
 /-- `dict.__eq__`: same length, and every key of the left one is in the right one with an equal value -/
-def dictEq (a b : List (PStr × AVal)) : Bool :=
+def dictEq (a b : Attrs) : Bool :=
   a.length == b.length &&
   a.all fun kv => match b.lookup kv.1 with
-    | some w => valEq kv.2 w
-    | none => false
+    | some w => valEq kv.2.2 w.2
+    | Option.none => false
 
 mutual
 /-- `self is other`: two values denote the same object when they agree entirely, identities included -/
@@ -387,14 +485,19 @@ def neImpl (a b : Node) : Bool := !(eqImpl a b)
 inductive EVal where
   | str (s : PStr)
   | list (items : List PStr)
+  | num (n : Int)
+  | none
 deriving DecidableEq, Repr
 
 def AVal.val : AVal → EVal
-  | .str s => .str s
+  | .str _ s => .str s
   | .list _ _ items => .list items
+  | .int n => .num n
+  | .bool b => .num (if b then 1 else 0)
+  | .none => .none
 
 /-- the attributes as a finite map (what "the same attributes regardless of order" means) -/
-def attrMap (l : List (PStr × AVal)) (k : PStr) : Option EVal := (l.lookup k).map AVal.val
+def attrMap (l : Attrs) (k : PStr) : Option EVal := (l.lookup k).map fun e => e.2.val
 
 /-- what `==` can see of a tree: a string's text; a tag's name, its attributes as a map, its children -/
 inductive Canon where
